@@ -27,6 +27,42 @@ func isUserSQLExec(call ssa.CallInstruction) bool {
 }
 
 func runC30(c *Ctx) {
+	c.Rule("C30.ONCE", "PATH: in every function of internal/api that relays a forwarded response (CopyResponse), no path leads from that call to c.Next(): a request answered by a peer is not also processed by the local handler")
+	{
+		n := 0
+		for _, fn := range c.P.FuncsIn("internal/api") {
+			for _, call := range findCalls(fn, true, "internal/api.CopyResponse") {
+				n++
+				reaches := false
+				var nextPos token.Pos
+				seen := map[*ssa.BasicBlock]bool{}
+				var scan func(b *ssa.BasicBlock, from int)
+				scan = func(b *ssa.BasicBlock, from int) {
+					for i := from; i < len(b.Instrs); i++ {
+						if ci, ok := b.Instrs[i].(ssa.CallInstruction); ok && ci != call {
+							nm := callName(ci)
+							if strings.HasSuffix(nm, "fiber/v2.Ctx).Next") {
+								reaches = true
+								nextPos = ci.Pos()
+								return
+							}
+						}
+					}
+					for _, sc := range b.Succs {
+						if !seen[sc] {
+							seen[sc] = true
+							scan(sc, 0)
+						}
+					}
+				}
+				idx := instrIndex(call.(ssa.Instruction))
+				scan(call.Block(), idx+1)
+				_ = nextPos
+				c.Check(!reaches, "C30.ONCE", fmt.Sprintf("%s|relay#%d-ends-the-request", call.Parent().Name(), n), call.Pos(), "nothing after the relayed response runs the local handler chain", call.Parent().Name()+" relays the peer's response and then falls through to c.Next(): the node that could not serve the request processes it locally as well (a reader runs the import it just forwarded, a compactor overwrites the peer's query answer)")
+			}
+		}
+		c.Check(n >= 5, "C30.ONCE", "internal/api|relay-sites", 0, fmt.Sprintf("%d relay sites inspected", n), "fewer relay sites than confirmed by hand (5)")
+	}
 	p := c.P
 	c.Rule("C30.ENTRY", "PASS: every registered route whose handler can reach an ingest-buffer write consults WriteForwardDecision (or is restricted to the primary writer through IsPrimaryWriter), and every route whose handler transforms and executes caller SQL consults QueryForwardDecision")
 	c.Rule("C30.THREE", "COVER+PASS: every handler that takes the forwarding decision compares it with ForwardAlreadyForwarded and that branch cannot reach local processing; the boolean ShouldForward* helpers (which fold 'already forwarded' into 'handle locally') are not used by handlers")
